@@ -2,6 +2,7 @@
    TLC (MCIAuth) -> behaviours -> replay on the real daemon -> ndjson traces -> TLC (IAuthTrace)."""
 import json
 import multiprocessing
+from . import core as _core
 import os
 import re
 import shutil
@@ -354,8 +355,7 @@ def replay(ctx, behaviours, svcs, timeout_on=True, nproc=6, tag="r", **opts):
                      os.path.join(ctx.scratch, "%s-trace%d.ndjson" % (tag, n)), opts))
     if nproc == 1:
         return [_replay_worker(jobs[0])]
-    with multiprocessing.Pool(nproc) as pool:
-        return pool.map(_replay_worker, jobs)
+    return _core.pool_map(_replay_worker, jobs, nproc)
 
 
 # ---- validation -----------------------------------------------------------------------------------------
